@@ -358,6 +358,12 @@ class XlaIso(Iso):
             while a[0] == "unop" and a[1] in "+-":
                 neg ^= a[1] == "-"
                 a = a[2]
+            if isinstance(v, float) and v in (float("inf"), -float("inf")):
+                # a literal infinity has no C++ literal: std::numeric_limits<T>::infinity(), negated for -inf
+                ok = a[0] == "tcall" and a[1] == "std::numeric_limits" and a[3] == "infinity" and neg == (v < 0)
+                if not ok:
+                    self.err("constant-value", value=repr(v), printed=str(a)[:80])
+                return
             if a[0] != "num" or not float_matches(("-" if neg else "") + a[1].rstrip("fFlL"), v):
                 self.err("constant-value", value=repr(v), printed=str(a))
             return
